@@ -171,6 +171,7 @@ def handleMeta (op : String) (args : List String) : Option String :=
     some <| match cfgOfArgs kvs {} with
     | none => "bad-arg"
     | some c => joinWith "\t" ("ok" :: (validateSingleLine c.proj c.tool).map encode)
+  | "canon", [s] => some <| "ok\t" ++ encode (canonicalizeName s)
   | "authorsplit", [s] =>
     some <| match authorMatch s.toList with
     | none => "nomatch"
